@@ -105,7 +105,90 @@ def opC08Run (j : Json) : Except String Json := do
                       ("metadata_before", optJson c08Res o.metadataBefore),
                       ("metadata", optJson c08Res o.metadataAfter)])
 
+/- `{"op":"c08.service","files":[…],"file":idx,"methods":[{"output":…,"opinfo":…}…]}` -/
+open Model.Lro in
+def opC08Service (j : Json) : Except String Json := do
+  let files ← (← getArrL j "files").mapM c08File
+  let idx ← (← j.getObjVal? "file").getNat?
+  let ms ← (← getArrL j "methods").mapM c08Method
+  match files[idx]? with
+  | none => pure (unsupported "file index out of range")
+  | some f =>
+    match loadService files f ms with
+    | .error e => pure (c08Err e)
+    | .ok xs =>
+      pure (Json.mkObj [("lro", jarr (xs.map fun x => optJson (fun (p : Str × Str) => jarr [jstr p.1, jstr p.2]) x)),
+                        ("has_lro", Json.bool (hasLro xs))])
+
+def c08Strs (j : Json) (k : String) : Except String (List (List Char)) := do
+  (← getArrL j k).mapM fun d => do pure (← d.getStr?).toList
+
+/- `{"op":"c08.alias","package":[…],"module":…,"version":…,"collisions":[…]}` (reserved = the pinned RESERVED_NAMES) -/
+open Model.Lro in
+def opC08Alias (j : Json) : Except String Json := do
+  let pkg ← c08Strs j "package"
+  let coll ← c08Strs j "collisions"
+  let r := moduleAlias pkg (← getStrL j "module") (← getStrL j "version") coll (Pinned.reservedNames.map String.toList)
+  pure (Json.mkObj [("alias", optJson jstr r)])
+
+/- `{"op":"c08.future_code","async":b,"version":…,"collisions":[…]}` -/
+open Model.Lro in
+def opC08FutureCode (j : Json) : Except String Json := do
+  let coll ← c08Strs j "collisions"
+  let asy ← (← j.getObjVal? "async").getBool?
+  match futureCode asy (← getStrL j "version") coll (Pinned.reservedNames.map String.toList) with
+  | none => pure (Json.mkObj [("error", Json.str "IndexError")])
+  | some c => pure (Json.mkObj [("import_module", jstr c.importModule), ("import_as", jstr c.importAs), ("callee", jstr c.callee)])
+
+open Model.Lro in
+def c08Binding (j : Json) : Except String Binding := do
+  match j with
+  | Json.arr #[Json.str v, Json.str u, Json.str b] => pure ⟨v.toList, u.toList, b.toList⟩
+  | _ => throw "bad binding"
+
+/- `{"op":"c08.ops_table","rules":[{"selector":…,"bindings":[[verb,uri,body]…]}…],"prefix":…,"names":[…]}` -/
+open Model.Lro in
+def opC08OpsTable (j : Json) : Except String Json := do
+  let rules ← (← getArrL j "rules").mapM fun r => do
+    let bs ← (← getArrL r "bindings").mapM c08Binding
+    match bs with
+    | [] => throw "rule without binding"
+    | b :: more => pure (⟨← getStrL r "selector", b, more⟩ : YamlRule)
+  let table := opsHttpTable (Pinned.reservedNames.map String.toList) rules
+  let pfx ← getStrL j "prefix"
+  let names ← c08Strs j "names"
+  let rowJ (r : Row) : Json := jarr [jstr r.method, jstr r.uri, optJson jstr r.body]
+  pure (Json.mkObj [("table", jarr (table.map fun e => jarr [jstr e.1, jarr (e.2.map rowJ)])),
+                    ("paths", jarr (names.map fun n => optJson (fun (p : Str × Str) => jarr [jstr p.1, jstr p.2]) (opsGetPath table pfx n)))])
+
+open Model.Lro in
+def c08Cmd (j : Json) : Except String Cmd := do
+  match ← j.getStr? with
+  | "metadata" => pure .metadata | "done" => pure .done | "running" => pure .running
+  | "cancel" => pure .cancel | "result" => pure .result | "exception" => pure .exception
+  | c => throw s!"bad cmd {c}"
+
+/- `{"op":"c08.exec","rt":…,"mt":…,"ops":[…],"cmds":["metadata","done",…]}` -/
+open Model.Lro in
+def opC08Exec (j : Json) : Except String Json := do
+  let rt ← getStrL j "rt"
+  let mt ← getStrL j "mt"
+  let ops ← (← getArrL j "ops").mapM c08Op
+  let cmds ← (← getArrL j "cmds").mapM c08Cmd
+  match ops with
+  | [] => pure (unsupported "empty history")
+  | first :: replies =>
+    let r := exec rt mt (Fut.init first replies) cmds
+    let obsJ : Obs → Json
+      | .md x => jarr [Json.str "metadata", optJson c08Res x]
+      | .flag b => jarr [Json.str "bool", Json.bool b]
+      | .res x => jarr [Json.str "result", c08Res x]
+      | .exc x => jarr [Json.str "exception", optJson c08Res x]
+    pure (Json.mkObj [("obs", jarr (r.2.map obsJ)), ("polls", jnat r.1.polls), ("cancels", jnat r.1.cancels)])
+
 def opsC08 : List (String × (Json → Except String Json)) :=
-  [("c08.resolve", opC08Resolve), ("c08.lro", opC08Lro), ("c08.client_output", opC08ClientOutput), ("c08.run", opC08Run)]
+  [("c08.resolve", opC08Resolve), ("c08.lro", opC08Lro), ("c08.client_output", opC08ClientOutput), ("c08.run", opC08Run),
+   ("c08.service", opC08Service), ("c08.alias", opC08Alias), ("c08.future_code", opC08FutureCode),
+   ("c08.ops_table", opC08OpsTable), ("c08.exec", opC08Exec)]
 
 end GapicModel.Driver
